@@ -114,6 +114,13 @@ structure Case where
   moff : Option Nat := none
   mpre : Bytes := []
   mpost : Bytes := []
+  -- program cases (`PROG`): statements parsed so far (a stack of open blocks), the implementation's records
+  isProg : Bool := false
+  init : Bytes := []
+  pstack : List (String × List Stmt) := [("top", [])]
+  precs : List (ProgObs × Bool × String) := []     -- observation, context variable at that moment, exception class
+  pflag : Bool := true
+  pfinal : Bytes := []
   -- context-manager cases
   isCtx : Bool := false
   evs : List CtxEv := []
@@ -178,11 +185,95 @@ def finishCtx (c : Case) : List String :=
   let prop := if ctxOk c.evs c.flags then "ok" else "fail validation_in_force_outside_disable_blocks"
   [corr, s!"{c.id} PROP C09 {prop}"]
 
+/-- split a token list at the ";" separators -/
+def splitSemi (ts : List String) : List (List String) :=
+  let r := ts.foldl (fun (acc : List (List String) × List String) t =>
+    if t == ";" then (acc.2.reverse :: acc.1, []) else (acc.1, t :: acc.2)) ([], [])
+  (r.2.reverse :: r.1).reverse
+
+def viaOf (s : String) : Via := if s == "f" then .fresh else .view (natOf (s.drop 1).toString)
+
+/-- push a finished statement onto the innermost open block -/
+def pushStmt (st : Stmt) : List (String × List Stmt) → List (String × List Stmt)
+  | [] => [("top", [st])]
+  | (k, l) :: rest => (k, st :: l) :: rest
+
+def progStep (c : Case) (r : List String) : Case :=
+  match r with
+  | "bind" :: i :: off :: ";" :: fty => { c with pstack := pushStmt (.bind (natOf i) ⟨natOf off, ftyOf fty⟩) c.pstack }
+  | "assign" :: via :: off :: ";" :: rest =>
+    (match splitSemi rest with
+     | [fty, key, val] =>
+       { c with pstack := pushStmt (.assign (viaOf via) ⟨natOf off, ftyOf fty⟩ (keyOf key) (valOf val)) c.pstack }
+     | _ => c)
+  | ["block", ig] => { c with pstack := ("block" ++ ig, []) :: c.pstack }
+  | ["try"] => { c with pstack := ("try", []) :: c.pstack }
+  | ["raise"] => { c with pstack := pushStmt .raise c.pstack }
+  | ["end"] =>
+    (match c.pstack with
+     | (k, body) :: rest =>
+       let st : Stmt := if k == "try" then .tryCatch body.reverse else .block (k == "block1") body.reverse
+       { c with pstack := pushStmt st rest }
+     | [] => c)
+  | _ => c
+
+def recOf (r : List String) : Option (ProgObs × Bool × String) :=
+  match r with
+  | depth :: fl :: off :: ";" :: rest =>
+    (match splitSemi rest with
+     | [fty, key, val, obs, [pre], [post], rb] =>
+       let raised := obs.head? != some "ok"
+       some ({ depth := natOf depth, loc := ⟨natOf off, ftyOf fty⟩, key := keyOf key, val := valOf val,
+               pre := hexBytes pre, post := hexBytes post, raised := raised, rb := rb.map scalarOf },
+             fl == "1", joinSp obs)
+     | _ => none)
+  | _ => none
+
+def finishProg (c : Case) : List String :=
+  let prog : List Stmt := match c.pstack.getLast? with | some (_, l) => l.reverse | none => []
+  let run := execList 0 { msg := c.init } prog
+  let mrecs := run.1.log.reverse
+  let showM (r : AssignRec) : String :=
+    s!"d{r.depth} f{if r.flag then 1 else 0} @{r.loc.off} " ++
+      (match r.err with | none => "ok" | some e => "err " ++ showErr e) ++ " " ++ showHex r.post
+  let showI (o : ProgObs × Bool × String) : String :=
+    s!"d{o.1.depth} f{if o.2.1 then 1 else 0} @{o.1.loc.off} {o.2.2} {showHex o.1.post}"
+  let ms := mrecs.map showM
+  let is := c.precs.reverse.map showI
+  let firstDiff := ((ms.zip is).zipIdx.find? fun p => p.1.1 != p.1.2)
+  let corr :=
+    match firstDiff with
+    | some ((m, i), k) => s!"{c.id} CORR diff [program] record {k}: model=[{m}] impl=[{i}]"
+    | none =>
+      if ms.length != is.length then
+        s!"{c.id} CORR diff [program] model executed {ms.length} assignments, implementation {is.length}"
+      else if run.1.flag != c.pflag then
+        s!"{c.id} CORR diff [program] final flag model={run.1.flag} impl={c.pflag}"
+      else if run.1.msg != c.pfinal then
+        s!"{c.id} CORR diff [program] final message model=[{showHex run.1.msg}] impl=[{showHex c.pfinal}]"
+      else s!"{c.id} CORR ok"
+  -- the Spec on what the implementation did
+  let obs := c.precs.reverse.map (·.1)
+  let bad := (obs.zipIdx.findSome? fun p =>
+    (firstFalse (progClauses p.1)).map fun cl => s!"validation_in_force_outside_disable_blocks record {p.2} {cl}")
+  let prop :=
+    match bad with
+    | some b => "fail " ++ b
+    | none => if c.pflag then "ok" else "fail validation_restored_after_program"
+  let nOut := (obs.filter fun o => o.depth == 0).length
+  [corr, s!"{c.id} PROP C09 {prop}", s!"{c.id} PROP TAG outside={nOut} inside={obs.length - nOut}"]
+
 def step (st : Case × List String) (line : String) : Case × List String :=
   let (c, out) := st
   match toks line with
   | ["CASE", id, en] => ({ id := id, en := en == "1" }, out)
   | ["CTX", id] => ({ id := id, isCtx := true }, out)
+  | ["PROG", id] => ({ id := id, isProg := true }, out)
+  | ["INIT", h] => ({ c with init := hexBytes h }, out)
+  | "PS" :: r => (progStep c r, out)
+  | "PR" :: r => ({ c with precs := match recOf r with | some x => x :: c.precs | none => c.precs }, out)
+  | ["FLAG", b] => ({ c with pflag := b == "1" }, out)
+  | ["FINAL", h] => ({ c with pfinal := hexBytes h }, out)
   | "FT" :: r => ({ c with ty := ftyOf r }, out)
   | "KEY" :: r => ({ c with key := keyOf r }, out)
   | "VAL" :: r => ({ c with val := valOf r }, out)
@@ -194,7 +285,7 @@ def step (st : Case × List String) (line : String) : Case × List String :=
   | ["MSG", off, pre, post] => ({ c with moff := some (natOf off), mpre := hexBytes pre, mpost := hexBytes post }, out)
   | "EV" :: r => ({ c with evs := r.map evOf }, out)
   | "FLAGS" :: r => ({ c with flags := r.map (· == "1") }, out)
-  | ["END"] => ({}, out ++ (if c.isCtx then finishCtx c else finishSet c))
+  | ["END"] => ({}, out ++ (if c.isCtx then finishCtx c else if c.isProg then finishProg c else finishSet c))
   | _ => (c, out)
 
 def main : IO Unit := do
